@@ -49,6 +49,7 @@ CONSTANTS
   KeyByAsked,            \* F10: trans keyed by the reference asked for only
   RecordAfter,           \* mutation: trans recorded after recursing
   DropParms,             \* mutation: the copied stream loses /DecodeParms
+  BoundBeforeRead,       \* mutation: the chain-length bound is tested before the last reference is read
   InlinedAsIs,           \* mutation: an indirect or array /Filter, /DecodeParms is stored as inlineFilterRefs
                          \* returns it, references nested in parameter dictionaries are not translated
   VerbatimAlways,        \* mutation: stream bytes reused whatever the encryption
@@ -309,6 +310,7 @@ CopyDictDone ==
 InRef == Running /\ stack # <<>> /\ Top.f = "ref"
 ChainSet == {Top.chain[i] : i \in 1..Len(Top.chain)}
 ChainKeys == {TK(c) : c \in ChainSet}
+GaveUp == BoundBeforeRead /\ Len(Top.chain) >= MaxChain
 
 Reveal ==
   /\ InRef /\ Top.ph = "walk" /\ g[Top.cur].k = "?"
@@ -319,16 +321,25 @@ Reveal ==
        /\ g' = [g EXCEPT ![Top.cur] = kd]
   /\ Tick /\ UNCHANGED <<stack, ret, trans, ext, dst, next, puts, log, fail, phase>>
 
+ResolveGiveUp ==   \* (mutation) the loop ends before the reference at hand is read
+  /\ InRef /\ Top.ph = "walk" /\ GaveUp /\ g[Top.cur].k # "?"     \* (the model looks at the object first)
+  /\ LET d == IF Top.new = 0 THEN next ELSE Top.new IN
+     /\ next' = IF Top.new = 0 THEN next + 1 ELSE next
+     /\ trans' = IF Top.new = 0 THEN [c \in ChainKeys |-> d] @@ trans ELSE trans
+     /\ stack' = Below \o <<[Top EXCEPT !.ph = "put", !.new = d, !.obj = 0]>>
+     /\ ret' = Ret(Nul)
+  /\ Tick /\ UNCHANGED <<g, hi, ext, dst, puts, log, fail, phase>>
+
 ResolveHop ==
-  /\ InRef /\ Top.ph = "walk" /\ g[Top.cur].k = "ref"
+  /\ InRef /\ Top.ph = "walk" /\ g[Top.cur].k = "ref" /\ ~GaveUp
   /\ LET m == g[Top.cur].to IN
      IF ~KeyByAsked /\ TK(m) \in DOMAIN trans
      THEN \* property-demanded design: every reference on the chain is looked up and recorded
           /\ trans' = [c \in ChainKeys |-> trans[TK(m)]] @@ trans
           /\ stack' = Below /\ ret' = Ret(Rf(trans[TK(m)]))
           /\ UNCHANGED <<dst, next, puts>>
-     ELSE IF m \in ChainSet
-     THEN \* resolvePath: ErrCycle is a MalformedFileError, the value is null
+     ELSE IF m \in ChainSet \/ Len(Top.chain) >= MaxChain
+     THEN \* a loop (ErrCycle) or more than MaxChain references (ErrDepth) are malformed: the value is null
           /\ LET d == IF Top.new = 0 THEN next ELSE Top.new IN
              /\ next' = IF Top.new = 0 THEN next + 1 ELSE next
              /\ trans' = IF Top.new = 0 THEN [c \in ChainKeys |-> d] @@ trans ELSE trans
@@ -340,7 +351,7 @@ ResolveHop ==
   /\ Tick /\ UNCHANGED <<g, hi, ext, log, fail, phase>>
 
 ResolveEnd ==    \* the chain ends: Copy(value), or null for a free / undefined object
-  /\ InRef /\ Top.ph = "walk" /\ g[Top.cur].k \in {"val", "free", "dangling"}
+  /\ InRef /\ Top.ph = "walk" /\ g[Top.cur].k \in {"val", "free", "dangling"} /\ ~GaveUp
   /\ LET v == IF g[Top.cur].k = "val" THEN g[Top.cur].v ELSE Nul
          d == IF Top.new = 0 THEN next ELSE Top.new
          fr == [Top EXCEPT !.ph = "put", !.new = d, !.obj = IF g[Top.cur].k = "val" THEN Top.cur ELSE 0]
@@ -413,7 +424,7 @@ Done == phase = "done" /\ UNCHANGED vars
 
 Machine ==
   \/ CallReturn \/ CopyElemLeaf \/ CopyDictNilPanics \/ CopyElemNested \/ CopyRefHit \/ CopyRefEnter
-  \/ CopyElemRet \/ CopyArrayDone \/ CopyDictDone \/ Reveal \/ ResolveHop \/ ResolveEnd \/ PutDst
+  \/ CopyElemRet \/ CopyArrayDone \/ CopyDictDone \/ Reveal \/ ResolveGiveUp \/ ResolveHop \/ ResolveEnd \/ PutDst
   \/ StreamDictRet \/ StreamInline \/ StreamInlineRet \/ StreamData
 Calls == \E c \in CallSet : CallCopyReference(c) \/ CallCopy(c) \/ CallCopyObj(c) \/ CallRedirect(c)
 Next == Machine \/ Calls \/ Finish \/ Done
@@ -433,7 +444,8 @@ Terminates == steps <= StepBound /\ Len(stack) <= StepBound
 NoPanic == fail # "panic"
 (* an error is returned only for the documented gap *)
 ErrorsOnlyUnsupported == fail = "unsupported" => SrcEnc # "none"
-Shape == AtEnd => ShapeOK(ObsG, ObsD, Roots, ext)
-Sharing == AtEnd => SharingOK(ObsG, ObsD, Roots, ext)
-IsoInv == AtEnd => Iso(ObsG, ObsD, Roots, ext)
+Judged == AtEnd /\ ~Ambiguous(ObsG, {Roots[i].s : i \in 1..Len(Roots)})
+Shape == Judged => ShapeOK(ObsG, ObsD, Roots, ext)
+Sharing == Judged => SharingOK(ObsG, ObsD, Roots, ext)
+IsoInv == Judged => Iso(ObsG, ObsD, Roots, ext)
 =============================================================================
